@@ -1,6 +1,8 @@
 // cliproto: reads lib/cli/app.go of csvq and prints Csvq/Gen/CliProto.lean — the statements of the closure
 // returned by commandAction (the frame every csvq run executes in) in source order, with the calls made
-// inside each deferred function / goroutine, and every call made anywhere in that closure.
+// inside each deferred function / goroutine, and every call made anywhere in that closure; and the BODY of every
+// deferred function literal as a tree WITH its control flow (conditions, returns, calls that never return), so that
+// "the clean-up calls are reached on every path through the deferred function" is a theorem and not a reading.
 // The theorems of Csvq/Props/C11.lean read off it that the clean-up (AutoRollback, then
 // ReleaseResourcesWithErrors) is deferred before anything that can return, that the signal handler is
 // installed by signal.Notify and never removed, and that the handler goroutine cancels the context.
@@ -71,6 +73,154 @@ func list(xs []string) string {
 	return "[" + strings.Join(q, ", ") + "]"
 }
 
+// ---- the body of a deferred function literal as a Csvq.CliFrame.Node term ----
+
+// never: calls after which the function does not go on
+var never = map[string]bool{
+	"panic": true, "os.Exit": true, "runtime.Goexit": true, "log.Fatal": true, "log.Fatalf": true, "log.Fatalln": true,
+	"log.Panic": true, "log.Panicf": true, "log.Panicln": true, "syscall.Exit": true,
+}
+
+// callNodes lists the calls an expression / simple statement makes, in evaluation order (arguments before the
+// call itself); the body of a function literal that is only passed on is not executed here, one that is called
+// on the spot is outside the supported subset
+func callNodes(n ast.Node) []string {
+	var out []string
+	var visit func(x ast.Node)
+	visit = func(x ast.Node) {
+		if x == nil {
+			return
+		}
+		ast.Inspect(x, func(y ast.Node) bool {
+			switch v := y.(type) {
+			case *ast.FuncLit:
+				return false
+			case *ast.CallExpr:
+				if _, ok := v.Fun.(*ast.FuncLit); ok {
+					die("function literal called on the spot inside a deferred function: %s", src(v))
+				}
+				visit(v.Fun)
+				for _, a := range v.Args {
+					visit(a)
+				}
+				fn := src(v.Fun)
+				if never[fn] {
+					out = append(out, "(.stop "+lit(fn)+")")
+				} else {
+					out = append(out, "(.call "+lit(fn)+")")
+				}
+				return false
+			}
+			return true
+		})
+	}
+	visit(n)
+	return out
+}
+
+func seq(parts []string) string {
+	if len(parts) == 0 {
+		return ".skip"
+	}
+	s := parts[len(parts)-1]
+	for i := len(parts) - 2; i >= 0; i-- {
+		s = "(.seq " + parts[i] + " " + s + ")"
+	}
+	return s
+}
+
+func nodeOfStmts(list []ast.Stmt) string {
+	parts := make([]string, 0, len(list))
+	for _, st := range list {
+		parts = append(parts, nodeOfStmt(st))
+	}
+	return seq(parts)
+}
+
+func nodeOfStmt(st ast.Stmt) string {
+	switch x := st.(type) {
+	case nil:
+		return ".skip"
+	case *ast.ExprStmt, *ast.AssignStmt, *ast.DeclStmt, *ast.IncDecStmt, *ast.SendStmt, *ast.EmptyStmt:
+		return seq(callNodes(x))
+	case *ast.BlockStmt:
+		return nodeOfStmts(x.List)
+	case *ast.ReturnStmt:
+		return seq(append(callNodes(x), ".ret"))
+	case *ast.IfStmt:
+		var parts []string
+		if x.Init != nil {
+			parts = append(parts, nodeOfStmt(x.Init))
+		}
+		parts = append(parts, callNodes(x.Cond)...)
+		els := ".skip"
+		if x.Else != nil {
+			els = nodeOfStmt(x.Else)
+		}
+		cond := src(x.Cond)
+		if x.Init != nil {
+			cond = src(x.Init) + "; " + cond
+		}
+		parts = append(parts, "(.ite "+lit(cond)+" "+nodeOfStmts(x.Body.List)+" "+els+")")
+		return seq(parts)
+	case *ast.SwitchStmt, *ast.TypeSwitchStmt:
+		var parts []string
+		var body *ast.BlockStmt
+		tag := ""
+		switch sw := x.(type) {
+		case *ast.SwitchStmt:
+			if sw.Init != nil {
+				parts = append(parts, nodeOfStmt(sw.Init))
+			}
+			if sw.Tag != nil {
+				parts = append(parts, callNodes(sw.Tag)...)
+				tag = src(sw.Tag)
+			}
+			body = sw.Body
+		case *ast.TypeSwitchStmt:
+			if sw.Init != nil {
+				parts = append(parts, nodeOfStmt(sw.Init))
+			}
+			parts = append(parts, callNodes(sw.Assign)...)
+			tag = src(sw.Assign)
+			body = sw.Body
+		}
+		// the clauses as a chain of two-way branches, the default clause last
+		chain, deflt := ".skip", ".skip"
+		var clauses []*ast.CaseClause
+		for _, c := range body.List {
+			cc := c.(*ast.CaseClause)
+			for _, s := range cc.Body {
+				if b, ok := s.(*ast.BranchStmt); ok && b.Tok == token.FALLTHROUGH {
+					die("fallthrough inside a deferred function: %s", src(x))
+				}
+			}
+			if cc.List == nil {
+				deflt = nodeOfStmts(cc.Body)
+			} else {
+				clauses = append(clauses, cc)
+			}
+		}
+		chain = deflt
+		for i := len(clauses) - 1; i >= 0; i-- {
+			cc := clauses[i]
+			labels := make([]string, len(cc.List))
+			var lc []string
+			for j, l := range cc.List {
+				labels[j] = src(l)
+				lc = append(lc, callNodes(l)...)
+			}
+			br := "(.ite " + lit("switch "+tag+" case "+strings.Join(labels, ", ")) + " " + nodeOfStmts(cc.Body) + " " + chain + ")"
+			chain = seq(append(lc, br))
+		}
+		parts = append(parts, chain)
+		return seq(parts)
+	}
+	// loops, select, go, defer, goto, labels: a deferred clean-up has no business with them — fail closed
+	die("statement outside the supported subset inside a deferred function: %s", src(st))
+	return ""
+}
+
 func main() {
 	repo := os.Getenv("VERIF_REPO")
 	if repo == "" {
@@ -107,11 +257,13 @@ func main() {
 		calls []string
 	}
 	var stmts []stmt
+	var deferredBodies []string
 	for _, st := range body.List {
 		switch x := st.(type) {
 		case *ast.DeferStmt:
 			if fl, ok := x.Call.Fun.(*ast.FuncLit); ok {
 				stmts = append(stmts, stmt{"defer", "func", calls(fl.Body)})
+				deferredBodies = append(deferredBodies, nodeOfStmts(fl.Body.List))
 			} else {
 				stmts = append(stmts, stmt{"defer", src(x.Call.Fun), nil})
 			}
@@ -164,6 +316,7 @@ func main() {
 		}
 	}
 	fmt.Println("/- GENERATED by extract/cliproto from lib/cli/app.go — do not edit. -/")
+	fmt.Println("import Csvq.Model.CliFrame")
 	fmt.Println("namespace Csvq.Gen")
 	fmt.Println()
 	fmt.Println("/-- statements of the closure returned by commandAction, in source order: ⟨kind, what, calls inside a deferred / go function literal⟩ -/")
@@ -179,6 +332,17 @@ func main() {
 	fmt.Println()
 	fmt.Println("/-- every call made anywhere in that closure (nested function literals included) -/")
 	fmt.Printf("def commandActionCalls : List String :=\n  %s\n", list(calls(body)))
+	fmt.Println()
+	fmt.Println("/-- the bodies of the function literals deferred in that closure, in source order, WITH their control flow -/")
+	fmt.Println("def commandActionDeferredBodies : List Csvq.CliFrame.Node := [")
+	for i, b := range deferredBodies {
+		sep := ","
+		if i == len(deferredBodies)-1 {
+			sep = ""
+		}
+		fmt.Printf("  %s%s\n", b, sep)
+	}
+	fmt.Println("]")
 	fmt.Println()
 	fmt.Println("end Csvq.Gen")
 }
